@@ -182,8 +182,8 @@ def generate(rng, seed, run, tier, focus='C11', xmode=False):
         wts = [3, 3, 5, 5, 6, 3, 4, 5, 6, 3, 2, 3, 1]
     else:
         kinds = ['ctx_new', 'txt_w', 'txt_r', 'str_rt', 'ref_w', 'ref_r', 'fimi', 'wiki', 'dat', 'restart',
-                 'drop', 'lat_force']
-        wts = [3, 7, 8, 7, 5, 4, 1, 2, 1, 2, 1, 1]
+                 'drop', 'lat_force', 'fmt_sub']
+        wts = [3, 7, 8, 7, 5, 4, 1, 2, 1, 2, 1, 1, rng.choice([0, 1, 2])]
     wts = [w * rng.choice([1, 1, 2]) for w in wts]
 
     while len(events) < cfg['n_events']:
@@ -284,6 +284,10 @@ def generate(rng, seed, run, tier, focus='C11', xmode=False):
             events.append(['ref_w', t, frmat, li, gen_table(rng, n, m), style, enc])
             files[t] = {'form': frmat, 'li': li, 'n': n, 'm': m}
             continue
+        if kind == 'fmt_sub':
+            # the caller's own Format subclass appears in the process-wide registry of formats
+            events.append([kind, node, rng.choice(['csv_tab', 'cxt_alt', 'table_alt', 'literal_alt'])])
+            continue
         if not have:
             continue
         nd, s = rng.choice(have)
@@ -325,7 +329,9 @@ def generate(rng, seed, run, tier, focus='C11', xmode=False):
                 if rng.random() < 0.35:
                     kwargs['dialect'] = rng.choice(['excel-tab', 'excel-tab', '@excel_tab', '@excel_tab()', '@excel', 'excel'])
                 if rng.random() < 0.3:
-                    kwargs['object_header'] = rng.choice(['name', 'o,bj', ''])
+                    # any text, also one that happens to be a label of the context itself
+                    kwargs['object_header'] = rng.choice(['name', 'o,bj', '', rng.choice(labels[info['li']][1]),
+                                                          rng.choice(labels[info['li']][0])])
             if frmat == 'table' and rng.random() < 0.4:
                 kwargs['indent'] = rng.choice([0, 1, 4, 9])
             enc = rng.choice(['utf-8', 'utf-8', 'utf-16', 'latin-1', 'utf-8-sig', 'utf-16-le', 'utf-16-be', 'cp1252'])
@@ -468,6 +474,14 @@ class Storage:
             self.close()
 
     # ------------------------------------------------------------ events: objects
+
+    def ev_fmt_sub(self, node, which):
+        if node >= self.cfg['n_nodes']:
+            return self.rec.log('noop')
+        r = self.send(node, {'op': 'fmt_subclass', 'which': which})
+        if r['ok']:
+            self.rec.fault('format_subclass_registered')
+        self.rec.log(str(r))
 
     def ev_ctx_new(self, node, slot, li, rows):
         objs, props = self.labels[li]
